@@ -606,6 +606,11 @@ def r3g(ctx: Ctx) -> list[Ob]:
                     tests.append(up.test)
                 if isinstance(up, ast.IfExp) and cur is up.body:
                     tests.append(up.test)
+                # the else branch of `if not X:` is where X holds
+                if isinstance(up, ast.If) and any(cur is b for b in up.orelse) and isinstance(up.test, ast.UnaryOp) and isinstance(up.test.op, ast.Not):
+                    tests.append(up.test.operand)
+                if isinstance(up, ast.IfExp) and cur is up.orelse and isinstance(up.test, ast.UnaryOp) and isinstance(up.test.op, ast.Not):
+                    tests.append(up.test.operand)
                 cur = up
             eqs = [n for t in tests for n in ast.walk(t) if isinstance(n, ast.Compare) and any(isinstance(o, ast.Eq) for o in n.ops)]
             elementwise = [n for n in eqs if any(_reads_elements(ld, x, idx_names) for x in [n.left, *n.comparators])]
